@@ -1,4 +1,4 @@
-import WM.Model.CodecFormats
+import WM.Model.CodecIndex
 /-
 Layer S for C10, document level: what "the postings / the vector that analysis of the document
 produced" means, with no encoding in it.
@@ -39,13 +39,6 @@ def postingSpec (fmt : Fmt) (fb : Rat) (os : List Token) : PostingSpec :=
     positions := os.map (·.pos)
     chars := os.map fun t => (t.pos, t.startchar, t.endchar)
     boosts := os.map (·.boost) }
-
-/-- A document of one field: number, per-document field boost (`_<field>_boost` / `_boost`), tokens. -/
-structure DocIn where
-  docnum : Int
-  boost : Rat
-  toks : List Token
-  deriving Repr
 
 /-- The posting list of term `w`: documents containing it, in the given order; the document-level
     boost multiplies the weight (`weight *= fieldboost` in `SegmentWriter.add_document`). -/
